@@ -46,6 +46,11 @@ CLAIMS = {
               "yields a tombstone with a deletion event; stored expiry = absolute(exp) / preserved / cleared per entry point. That the Go "
               "timer goroutine fires within seconds of the deadline is assumed; a real-time slice (2 s expiries, real clock) exercises it.",
               note="Partial: timer latency is a runtime assumption."),
+ "C18": claim("Proved on the JSON object model: a set/remove at any dotted path preserves every other property, the addressed path then "
+              "evaluates to the value (or is gone), SubdocInsert refuses an existing property and a missing document, a supplied CAS is "
+              "honoured, and the call is a pure read+edit plan followed by one WriteCas conditional on the CAS read (so by C02 no concurrent "
+              "update is lost). Go's decode/encode of the document (map[string]any, float64) is outside the model: see known finding F18.",
+              note="Partial: the JSON round trip through Go values is not modelled."),
  "C17": claim("Proved: every single-row entry point either changes no row or raises the addressed key's revSeqNo by exactly one (1 for a key "
               "without a row), live and backfill events and the virtual xattrs report the stored number. Compound calls via correspondence + monitor."),
 }
